@@ -5,6 +5,7 @@ import Apko.Model.Layers
   l.split  groups  walk  goLayers   → impl \t verdict(goLayers) \t class
   l.bytes  …                        → byte-level oracle evaluated by the harness (oracle-go)
   l.e2e    budget buildOnly diff    → end-to-end oracle evaluated by the harness (oracle-go); class only
+  l.e2esplit budget pkgs walk goLayers → end to end: verdict of `l.split` with the model's groups of `pkgs`
 
 encodings (strings hex, lists separated by `;`, fields by `,`, sub-lists by `:`):
   pkgs    name,origin,version,size,rep:rep:…;…
@@ -145,6 +146,18 @@ def handle (args : List String) : Option String :=
     let v := verdictSplit gs w go
     some (implSplit gs w ++ "\t" ++ v ++ "\t" ++ (if v = "pass" then "-" else "unlisted"))
   | "l.bytes" :: _ => some "-\t-\tunlisted"
+  -- a whole layered `apko build`: the packages and the owner of every file are read from the installed database of the
+  -- image (not from tarfs' side channel), the groups are the model's; the emitted layers must be the split of the
+  -- single-layer image along those groups
+  | ["l.e2esplit", budget, pkgs, walk, go] =>
+    let ps := parsePkgs pkgs
+    let w := parseWalk walk
+    match groupByOriginAndSize ps budget.toInt! id id id id with
+    | .ok gs =>
+      let names := gs.map fun g => g.pkgs.map (·.name)
+      let v := verdictSplit names w go
+      some ("-\t" ++ v ++ "\t" ++ (if v = "pass" then "-" else "unlisted"))
+    | _ => some "-\tfail:grouping-error\tunlisted"
   | ["l.e2e", _budget, buildOnly, diff] =>
     -- class F10c: a build-only repository is configured and the only difference between the flattened
     -- multi-layer image and the single-layer image is etc/apk/repositories
